@@ -41,3 +41,28 @@ LEVELS['C07'] = {'category': 'proof', 'text': 'Kernel-checked, for all geometrie
       'this covers every call sequence. The float->int part (exp2 never feeds NaN/inf/out-of-range to to_int_unchecked, for every bit pattern) is stated in Props/C18.lean; until that theorem is complete it is covered by the outcome-class '
       'correspondence with the hook assertion on special floats (listed under partial in the evidence).',
       'note': NOTE, 'technique': 'Lean 4 invariant proofs (constructor establishes, loops preserve) + outcome-class correspondence with hook assertions'}
+
+def partial(pid, text, technique):
+    LEVELS[pid] = {'category': 'other', 'text': text, 'note': NOTE, 'technique': technique}
+
+partial('C03', 'Proved (kernel): Linear is the bit-exact identity for every image, the four aliases are the same function as BT.1886 (bit-identical), Linear through the API returns the data unchanged; '
+        'proved by evaluation of the model (native_decide): every non-log curve maps 0 to 0 within 1e-6 and 1 to 1 within its budget, both FMA modes. NOT proved: the 2.5e-4/5.7e-4 accuracy over all floats of [0,1]; '
+        'that clause rests on the bit-exact correspondence of the model with the code plus the f64 oracle (every float of [0,1] in the thorough tier) - hence category other, not proof.',
+        'Lean 4 theorems for the exact clauses + model evaluation of anchors; correspondence + exhaustive oracle for accuracy')
+partial('C06', 'Proved: identical source and target primaries leave every image bit-exactly unchanged (same_primaries); by evaluation of the 22 model matrices (native_decide): white maps to white within 1e-5 and back, both FMA modes. '
+        'NOT proved: 1e-5 accuracy against the exact CIE derivation for all pixels (correspondence on all 14 primaries values + f64 oracle).',
+        'Lean 4 theorem + evaluated matrix checks; correspondence + f64 CIE oracle')
+partial('C09', 'Proved (kernel) for every image/config/build: YUV->XYB->YUV with the image own config preserves width, height, plane sizes and config (roundtrip_shape, via dimension lemmas for every stage). '
+        'NOT proved: the code budget max(1, 0.015*(2^n-1)); checked by chain correspondence (bit-exact model of all five stages) and the oracle.',
+        'Lean 4 shape theorem; correspondence + oracle for the numeric budget')
+partial('C10', 'Proved: Linear and alias clauses (exact). NOT proved: the round-trip bound for the non-trivial curves; correspondence + oracle over every float of [0,1] in the thorough tier.',
+        'Lean 4 exact clauses; correspondence + exhaustive oracle')
+partial('C13', 'Proved (kernel), pixel data being arbitrary bit patterns: every emitted code is <= 2^n-1 (codes_valid); RGB->YUV on any float data returns a value or a ConversionError, never panic/UB, and the result satisfies the constructor invariant '
+        '(rgbToYuv_total, from the encode loop invariant); YUV->RGB on any constructed image is total (yuvToRgb_total); XYB/HSL stages are total maps. Pending: exp2 totality for every bit pattern (the only way a curve can fail), finiteness of outputs for inputs in [0,1]^3. '
+        'Both optimised and overflow/debug-checked builds are exercised by correspondence and oracle.',
+        'Lean 4 theorems from loop invariants; correspondence + oracle under optimised and checked builds')
+partial('C16', 'Proved exhaustively (native_decide over all 3.67 million cases, lifted to a forall-theorem): for every standard matrix, range, depth 8..16, FMA mode and EVERY luma code, neutral chroma decodes to R=G=B within 5e-7, nominal black to exactly 0, nominal white to 1 within 1e-6 '
+        '(C16.grey_axis; exact dyadic comparison, no sampling). Curve anchors: C03.anchors. NOT proved: primaries/XYB/HSL grey clauses (correspondence + oracle over 2^20 grey levels in the thorough tier).',
+        'Lean 4 exhaustive evaluation of the bit-exact model (native_decide) + soundness lemma; correspondence + oracle')
+partial('C19', 'Proved (kernel, generic in the element bit patterns, both formats): transpose is an exact involution, scalar_div/component_mul are element-wise, mul_vec/mul_arr are the same expression. NOT proved: the accuracy clauses; correspondence in f32 and f64 + exact oracle.',
+        'Lean 4 structural theorems; correspondence + exact oracle')
